@@ -5,6 +5,7 @@ import GeonumModel.Lemmas.AngleStep
 import GeonumModel.Lemmas.Shift
 import GeonumModel.Lemmas.Exact
 import GeonumModel.Lemmas.ExactAdd
+import GeonumModel.Lemmas.FloatReflect
 
 set_option linter.unusedSectionVars false
 set_option linter.unusedVariables false
@@ -189,6 +190,34 @@ theorem scaleRotate_cartesian_real {g : Geonum ℝ} {r : Angle ℝ} (f : ℝ) (h
 end E
 
 /-! PARTIAL (not yet proved): the Cartesian meaning of scale-rotate (explored by `oracle.C12.scale_rotate`). -/
+
+/-! ### S/B-tier: the reflection law in ROUNDED arithmetic (float totals `Tq`, whole turns `4·(π_f/2)`) -/
+section B
+variable {F : Type} [FloatSpec F]
+
+/-- (S/B) **reflection sends direction `t` to `2α − t` modulo whole turns in rounded arithmetic**, to within three snap
+    tolerances, and returns the magnitude field itself — for every blade history of the number and of the axis -/
+theorem reflect_direction_float {g axis : Geonum F} (hg : g.angle.Inv) (hax : axis.angle.Inv) :
+    (g.reflect axis).mag = g.mag ∧
+    ∃ (δ : ℝ) (m : ℤ), |δ| < 3 * (val (e10 : F) + 1 / 10 ^ 15) ∧
+      Angle.Tq (g.reflect axis).angle = 2 * Angle.Tq axis.angle - Angle.Tq g.angle + δ + (m : ℝ) * (4 * val (qp : F)) :=
+  Geonum.reflect_direction_float hg hax
+
+/-- (S/B) a number lying on the axis keeps its direction -/
+theorem reflect_on_axis_float {g axis : Geonum F} (hg : g.angle.Inv) (hax : axis.angle.Inv)
+    (hon : Angle.Tq g.angle = Angle.Tq axis.angle) :
+    ∃ (δ : ℝ) (m : ℤ), |δ| < 3 * (val (e10 : F) + 1 / 10 ^ 15) ∧
+      Angle.Tq (g.reflect axis).angle = Angle.Tq g.angle + δ + (m : ℝ) * (4 * val (qp : F)) :=
+  Geonum.reflect_on_axis_float hg hax hon
+
+/-- (S/B) reflecting twice across the same axis restores the direction (six snap tolerances) and the magnitude field -/
+theorem reflect_twice_float {g axis : Geonum F} (hg : g.angle.Inv) (hax : axis.angle.Inv) :
+    ((g.reflect axis).reflect axis).mag = g.mag ∧
+    ∃ (δ : ℝ) (m : ℤ), |δ| < 6 * (val (e10 : F) + 1 / 10 ^ 15) ∧
+      Angle.Tq ((g.reflect axis).reflect axis).angle = Angle.Tq g.angle + δ + (m : ℝ) * (4 * val (qp : F)) :=
+  Geonum.reflect_twice_float hg hax
+
+end B
 
 example {F : Type} [FloatSpec F] : (⟨zero, 6⟩ : Angle F).Inv := inv_zero 6
 
